@@ -40,35 +40,30 @@ def flat_acceptance(ctx, rule, lname):
     if root_h is None:
         ctx.bad(rule, lname + ":root", "root-not-floor-sqrt-size", where, "no `root = (size as f32).sqrt() as usize` in the Single arm")
         return
-    t = strip(b["tail"]) if b["tail"] is not None else None
-    if t is None or t.get("k") != "if" or t["el"] is None:
-        raise Unestablished("Single arm does not end in if/else", where)
-    th_div = not e4.outcomes(c, t["th"], lambda n: False)
-    el_div = not e4.outcomes(c, t["el"], lambda n: False)
-    cond = e1.Norm(c, env).norm(t["c"])
+    # the reinterpretation Triple(1, root, root) is reached only when root*root == size (nested if/else or guard clause alike)
+    tr = [x for x in walk(arm["body"]) if x.get("k") == "call" and x["callee"] == "tensor::Shape::Triple"]
+    if len(tr) != 1:
+        raise Unestablished("Single arm builds %d Shape::Triple values" % len(tr), where)
     root, size = Rat.atom("root"), Rat.atom("size")
     sq = e1.cmp_atom("Eq", root * root, size)
-    nsq = e1.cmp_atom("Ne", root * root, size)
-    if el_div and not th_div:
-        ok = str(cond) == sq
-        accept = t["th"]
-    elif th_div and not el_div:
-        ok = str(cond) == nsq
-        accept = t["el"]
-    else:
-        raise Unestablished("cannot tell the accepting branch", where)
-    ctx.check(rule, lname + ":guard", ok, "guard-does-not-imply-perfect-square:" + str(cond), c.loc(fn, t["c"]),
+    pcs = [it for it in (e4.path_conditions(c, arm["body"], tr[0]) or []) if it["kind"] == "if" or it.get("panics")]
+    known = []
+    for (a, pol, _) in e4.atoms_of(pcs):
+        try:
+            v = e1.Norm(c, env).norm(a)
+        except ValueError:
+            continue
+        known.append(str(v) if pol else str(e1.negate_cond(v)))
+    ok = sq in known
+    ctx.check(rule, lname + ":guard", ok, "guard-does-not-imply-perfect-square:" + ",".join(known)[:60], c.loc(fn, tr[0]),
               "accepts iff root*root == size",
               "%s::create accepts a flat size when `%s`, which does not imply root*root == size (e.g. size 6, root 2): "
-              "the layer then reads 1 x root x root and drops the remaining elements" % (lname, pretty(t["c"])))
+              "the layer then reads 1 x root x root and drops the remaining elements" % (lname, " && ".join(known) or "always"))
     # reinterpretation (1, root, root)
-    tr = [x for x in walk(accept) if x.get("k") == "call" and x["callee"] == "tensor::Shape::Triple"]
-    okr = False
-    if tr:
-        vals = [str(e1.Norm(c, env).norm(z)) for z in tr[0]["args"]]
-        okr = vals == ["1", "root", "root"]
-    ctx.check(rule, lname + ":reinterpret", okr, "flat-input-not-read-as-1xrxr", c.loc(fn, accept), "Triple(1, root, root)",
-              "flat input is reinterpreted as %s" % (vals if tr else "?"))
+    vals = [str(e1.Norm(c, env).norm(z)) for z in tr[0]["args"]]
+    okr = vals == ["1", "root", "root"]
+    ctx.check(rule, lname + ":reinterpret", okr, "flat-input-not-read-as-1xrxr", c.loc(fn, tr[0]), "Triple(1, root, root)",
+              "flat input is reinterpreted as %s" % vals)
 
 
 def flat_rechunk(ctx, rule, lname):
